@@ -1,6 +1,423 @@
-(* C18 — stub: model not yet built (the property is listed under not_applicable until it is). *)
-From Coq Require Import List ZArith Bool.
+(* C18 -- model of exp/zapslog/handler.go (+ options.go: WithName), following the Go text:
+
+     convertAttrToField  ->  [convert]        (fixed code)   /  [convert_orig]     (code before the fix)
+     convertSlogLevel    ->  [convert_slog_level]
+     Handler.Handle / WithAttrs loop  ->  [attr_loop]  (deferred namespace emission on the first field <> Skip)
+     appendGroups        ->  [map FNamespace groups]
+     WithAttrs           ->  [with_attrs]
+     WithGroup           ->  [with_group]     (fixed code)   /  [with_group_orig]  (code before the fix)
+     Enabled / Handle    ->  [enabled] / [handle]
+
+   Handler.groups is a Go slice: it is modelled with an explicit heap of backing arrays
+   ([heap], [gslice]) so that "deriving a handler never affects its parent or siblings" is a
+   statement about aliasing and not a triviality of a pure model; [with_group_append] is the
+   aliasing variant (newGroups := append(h.groups, group)) kept to show that the model can
+   express the failure.
+
+   The zap core is modelled by what the handler hands to it: the fields accumulated by
+   core.With (a flat list: ioCore.With adds them to a cloned encoder, namespaces stay open)
+   followed by the fields of Write, and a LevelEnabler [en : Z -> bool].  The field list is
+   interpreted by [denote] (a namespace nests everything after it; an object closes its own
+   namespaces) into an ordered tree; that is what the JSON core of the harness shows.
+
+   Standard library = oracle: the JSON text of every scalar / the JSON tree of every KindAny
+   value travels with the case; slog.Value construction (GroupValue dropping empty groups,
+   Record.AddAttrs dropping empty groups) has already happened when the case is read back
+   from the slog values; Value.Resolve = strip the LogValuer layers (chains shorter than
+   slog's limit of 100, LogValue does not panic).
+
+   No proofs in this file. *)
+From Coq Require Import List ZArith Bool Lia.
+From Coq.Strings Require Import Byte.
 Import ListNotations.
 From Zap Require Import Base.Wire.
-Definition model (i : sx) : sx := SL [].
-Definition spec (i o : sx) : bool := false.
+Local Open Scope Z_scope.
+
+Definition is_nil {A} (l : list A) : bool := match l with [] => true | _ => false end.
+
+(* ------------------------------------------------------------------ *)
+(* slog values, as the handler receives them                           *)
+(* ------------------------------------------------------------------ *)
+Inductive kind := KBool | KDuration | KFloat64 | KInt64 | KString | KTime | KUint64.
+
+(* ordered JSON-like trees; duplicates kept.  A leaf carries canonical JSON text. *)
+Inductive tree := Leaf (txt : bytes) | Node (kvs : list (bytes * tree)).
+Definition otree := list (bytes * tree).
+
+Inductive value :=
+| VScalar (k : kind) (txt : bytes)          (* Kind() in Bool..Uint64; txt = oracle: its JSON text *)
+| VAny (isnil : bool) (t : tree)            (* KindAny; isnil <-> Value.Any() == nil (the zero Value); t = oracle: what zap.Any encodes *)
+| VGroup (l : list (bytes * value))         (* KindGroup: Value.Group() *)
+| VLogValuer (v : value).                   (* KindLogValuer; v = what LogValue() returns *)
+Definition attr := (bytes * value)%type.
+
+(* ------------------------------------------------------------------ *)
+(* zap fields, as handed to the core                                   *)
+(* ------------------------------------------------------------------ *)
+Inductive ztype := ZBool | ZDuration | ZFloat64 | ZInt64 | ZString | ZTime | ZUint64.
+Inductive field :=
+| FSkip
+| FNamespace (k : bytes)
+| FScalar (t : ztype) (k : bytes) (txt : bytes)
+| FAny (k : bytes) (t : tree)               (* zap.Any(key, v) *)
+| FObject (k : bytes) (fs : list field)     (* zap.Object(key, groupObject) : the fields its MarshalLogObject adds *)
+| FInline (fs : list field).                (* zap.Inline(groupObject) *)
+
+Definition is_skip (f : field) : bool := match f with FSkip => true | _ => false end.
+
+(* attr.Equal(slog.Attr{}) : empty key and the zero Value *)
+Definition is_empty_attr (k : bytes) (v : value) : bool :=
+  is_nil k && match v with VAny true _ => true | _ => false end.
+
+Definition ztype_of (k : kind) : ztype :=
+  match k with
+  | KBool => ZBool | KDuration => ZDuration | KFloat64 => ZFloat64 | KInt64 => ZInt64
+  | KString => ZString | KTime => ZTime | KUint64 => ZUint64
+  end.
+
+(* convertAttrToField BEFORE the fix (kept as documentation; see C18_*_refuted).
+   groupObject(attrs).MarshalLogObject converts each attr at encoding time; the conversion
+   is pure, so the model performs it when the field is built (same function, same order).
+   KindLogValuer: the code calls Resolve() (strips every LogValuer layer) and recurses; the
+   model recurses once per layer, which is the same function (lemma convert_resolve). *)
+Fixpoint convert_orig (k : bytes) (v : value) : field :=
+  if is_empty_attr k v then FSkip else
+  match v with
+  | VScalar kd txt => FScalar (ztype_of kd) k txt
+  | VGroup l =>
+      let fs := (fix go (l : list (bytes * value)) : list field :=
+                   match l with [] => [] | (k', v') :: r => convert_orig k' v' :: go r end) l in
+      if is_nil k then FInline fs else FObject k fs
+  | VLogValuer v' => convert_orig k v'
+  | VAny _ t => FAny k t
+  end.
+
+(* convertAttrToField AFTER the fix: convertGroup converts the attrs of a group eagerly and
+   drops the Skip fields; a group left without fields is itself Skip. *)
+Fixpoint convert (k : bytes) (v : value) : field :=
+  if is_empty_attr k v then FSkip else
+  match v with
+  | VScalar kd txt => FScalar (ztype_of kd) k txt
+  | VGroup l =>
+      let fs := (fix go (l : list (bytes * value)) : list field :=
+                   match l with
+                   | [] => []
+                   | (k', v') :: r => let f := convert k' v' in if is_skip f then go r else f :: go r
+                   end) l in
+      if is_nil fs then FSkip else
+      if is_nil k then FInline fs else FObject k fs
+  | VLogValuer v' => convert k v'
+  | VAny _ t => FAny k t
+  end.
+
+(* convertSlogLevel: switch { case l >= LevelError(8); case l >= LevelWarn(4); case l >= LevelInfo(0); default } *)
+Definition convert_slog_level (l : Z) : Z :=
+  if 8 <=? l then 2 else if 4 <=? l then 1 else if 0 <=? l then 0 else -1.
+
+(* ------------------------------------------------------------------ *)
+(* Handler                                                             *)
+(* ------------------------------------------------------------------ *)
+Definition heap := list (list bytes).              (* backing arrays of []string; cap = length *)
+Definition gslice := option (nat * nat).           (* nil | (array, len) *)
+Definition read_groups (hp : heap) (s : gslice) : list bytes :=
+  match s with None => [] | Some (a, n) => firstn n (nth a hp []) end.
+
+Record handler := { h_ctx : list field;           (* fields given to core.With so far *)
+                    h_name : bytes;
+                    h_groups : gslice }.
+
+(* the loop shared by Handle (record.Attrs) and WithAttrs:
+     f := convertAttrToField(attr)
+     if !addedNamespace && len(h.groups) > 0 && f != zap.Skip() { fields = h.appendGroups(fields); addedNamespace = true }
+     fields = append(fields, f) *)
+Fixpoint attr_loop (cv : bytes -> value -> field) (gs : list bytes) (attrs : list attr)
+         (fields : list field) (added : bool) : list field * bool :=
+  match attrs with
+  | [] => (fields, added)
+  | (k, v) :: r =>
+      let f := cv k v in
+      if negb added && negb (is_nil gs) && negb (is_skip f)
+      then attr_loop cv gs r ((fields ++ map FNamespace gs) ++ [f]) true
+      else attr_loop cv gs r (fields ++ [f]) added
+  end.
+
+Definition with_attrs (cv : bytes -> value -> field) (hp : heap) (h : handler) (attrs : list attr) : handler :=
+  let '(fields, added) := attr_loop cv (read_groups hp (h_groups h)) attrs [] false in
+  {| h_ctx := h_ctx h ++ fields;                  (* cloned.core = h.core.With(fields) *)
+     h_name := h_name h;
+     h_groups := if added then None else h_groups h |}.
+
+Fixpoint set_nth {A} (n : nat) (l : list A) (x : A) : list A :=
+  match l, n with
+  | [], _ => []
+  | _ :: r, O => x :: r
+  | y :: r, S n' => y :: set_nth n' r x
+  end.
+(* copy(dst, src) *)
+Definition go_copy {A} (dst src : list A) : list A :=
+  firstn (length dst) src ++ skipn (length src) dst.
+
+(* WithGroup BEFORE the fix: make(len+1); copy; newGroups[len] = group -- whatever the name *)
+Definition with_group_orig (hp : heap) (h : handler) (name : bytes) : heap * handler :=
+  let old := read_groups hp (h_groups h) in
+  let n := length old in
+  let arr := set_nth n (go_copy (repeat [] (S n)) old) name in
+  (hp ++ [arr], {| h_ctx := h_ctx h; h_name := h_name h; h_groups := Some (length hp, S n) |}).
+
+(* WithGroup AFTER the fix: if group == "" { return h } *)
+Definition with_group (hp : heap) (h : handler) (name : bytes) : heap * handler :=
+  if is_nil name then (hp, h) else with_group_orig hp h name.
+
+(* aliasing variant (NOT the code): newGroups := append(h.groups, group) *)
+Definition with_group_append (hp : heap) (h : handler) (name : bytes) : heap * handler :=
+  match h_groups h with
+  | None => (hp ++ [[name]], {| h_ctx := h_ctx h; h_name := h_name h; h_groups := Some (length hp, 1%nat) |})
+  | Some (a, n) =>
+      let arr := nth a hp [] in
+      if Nat.ltb n (length arr)
+      then (firstn a hp ++ [set_nth n arr name] ++ skipn (S a) hp,   (* written in place *)
+            {| h_ctx := h_ctx h; h_name := h_name h; h_groups := Some (a, S n) |})
+      else (hp ++ [firstn n arr ++ name :: repeat [] (Nat.pred n)],  (* grown: cap doubles *)
+            {| h_ctx := h_ctx h; h_name := h_name h; h_groups := Some (length hp, S n) |})
+  end.
+
+Record entry := { e_level : Z; e_msg : bytes; e_name : bytes; e_fields : list field }.
+
+(* Enabled: h.core.Enabled(convertSlogLevel(level)) *)
+Definition enabled (en : Z -> bool) (level : Z) : bool := en (convert_slog_level level).
+
+(* Handle: ce := core.Check(ent, nil) (ioCore: non-nil iff Enabled(ent.Level)); fields loop; ce.Write(fields...) *)
+Definition handle (cv : bytes -> value -> field) (en : Z -> bool) (hp : heap) (h : handler)
+           (level : Z) (msg : bytes) (rec : list attr) : option entry :=
+  let zl := convert_slog_level level in
+  if en zl then
+    let '(fields, _) := attr_loop cv (read_groups hp (h_groups h)) rec [] false in
+    Some {| e_level := zl; e_msg := msg; e_name := h_name h; e_fields := h_ctx h ++ fields |}
+  else None.
+
+(* ------------------------------------------------------------------ *)
+(* Programs: any derivation tree, any interleaving                     *)
+(* ------------------------------------------------------------------ *)
+(* handler 0 is NewHandler(core, WithName(name)); every CGroup/CAttrs creates the next id *)
+Inductive cmd :=
+| CGroup (parent : nat) (name : bytes)
+| CAttrs (parent : nat) (attrs : list attr)
+| CHandle (h : nat) (level : Z) (msg : bytes) (rec : list attr).
+
+Definition out := (bool * option entry)%type.     (* Enabled(level), what Handle(record) gave the core *)
+
+Definition root (name : bytes) : handler := {| h_ctx := []; h_name := name; h_groups := None |}.
+
+Fixpoint run (cv : bytes -> value -> field) (wg : heap -> handler -> bytes -> heap * handler)
+         (en : Z -> bool) (name : bytes) (hp : heap) (st : list handler) (p : list cmd) : list out :=
+  match p with
+  | [] => []
+  | CGroup par g :: r =>
+      let '(hp', h') := wg hp (nth par st (root name)) g in run cv wg en name hp' (st ++ [h']) r
+  | CAttrs par a :: r =>
+      run cv wg en name hp (st ++ [with_attrs cv hp (nth par st (root name)) a]) r
+  | CHandle i l m rec :: r =>
+      let h := nth i st (root name) in
+      (enabled en l, handle cv en hp h l m rec) :: run cv wg en name hp st r
+  end.
+
+Definition run_fixed en name p := run convert with_group en name [] [root name] p.
+Definition run_orig en name p := run convert_orig with_group_orig en name [] [root name] p.
+Definition run_append en name p := run convert with_group_append en name [] [root name] p.
+
+(* ------------------------------------------------------------------ *)
+(* Interpretation of a field list (independent nesting semantics)      *)
+(* ------------------------------------------------------------------ *)
+(* [denote_f f tail] : the members contributed by f when [tail] is what everything after f
+   contributes at the same level *)
+Fixpoint denote_f (f : field) (tail : otree) : otree :=
+  match f with
+  | FSkip => tail
+  | FNamespace k => [(k, Node tail)]
+  | FScalar _ k txt => (k, Leaf txt) :: tail
+  | FAny k t => (k, t) :: tail
+  | FObject k fs =>
+      (k, Node ((fix go (fs : list field) : otree :=
+                   match fs with [] => [] | f' :: r => denote_f f' (go r) end) fs)) :: tail
+  | FInline fs =>
+      (fix go (fs : list field) : otree :=
+         match fs with [] => tail | f' :: r => denote_f f' (go r) end) fs
+  end.
+Definition denote (fs : list field) : otree := fold_right denote_f [] fs.
+
+(* ------------------------------------------------------------------ *)
+(* Specification: the slog.Handler contract, written on trees          *)
+(* ------------------------------------------------------------------ *)
+(* "Attr's values should be resolved": first stage, everywhere in the tree *)
+Inductive rvalue :=
+| RScalar (txt : bytes)
+| RAny (isnil : bool) (t : tree)
+| RGroup (l : list (bytes * rvalue)).
+
+Fixpoint resolve_all (v : value) : rvalue :=
+  match v with
+  | VScalar _ txt => RScalar txt
+  | VAny b t => RAny b t
+  | VGroup l => RGroup ((fix go (l : list (bytes * value)) : list (bytes * rvalue) :=
+                           match l with [] => [] | (k, v') :: r => (k, resolve_all v') :: go r end) l)
+  | VLogValuer v' => resolve_all v'
+  end.
+
+(* - an Attr whose key and value are both zero is ignored
+   - a group with an empty key is inlined
+   - a group that has no Attrs (nothing to show) is ignored, even with a non-empty key *)
+Fixpoint rattr_sem (k : bytes) (v : rvalue) : otree :=
+  match v with
+  | RScalar txt => [(k, Leaf txt)]
+  | RAny isnil t => if is_nil k && isnil then [] else [(k, t)]
+  | RGroup l =>
+      let c := (fix go (l : list (bytes * rvalue)) : otree :=
+                  match l with [] => [] | (k', v') :: r => rattr_sem k' v' ++ go r end) l in
+      if is_nil c then [] else if is_nil k then c else [(k, Node c)]
+  end.
+Definition attr_sem (a : attr) : otree := rattr_sem (fst a) (resolve_all (snd a)).
+Definition attrs_sem (l : list attr) : otree := flat_map attr_sem l.
+
+(* a handler = the derivation sequence that made it *)
+Inductive op := OGroup (name : bytes) | OAttrs (attrs : list attr).
+
+(* - WithAttrs: the attrs come before whatever follows, at the current nesting
+   - WithGroup(name): everything that follows is qualified by name; an empty name opens
+     nothing; a group in which nothing appears is not shown *)
+Fixpoint spec_sem (ops : list op) (rec : list attr) : otree :=
+  match ops with
+  | [] => attrs_sem rec
+  | OAttrs a :: r => attrs_sem a ++ spec_sem r rec
+  | OGroup n :: r =>
+      let c := spec_sem r rec in
+      if is_nil n then c else if is_nil c then [] else [(n, Node c)]
+  end.
+
+(* Debug below Info(0); Info up to Warn(4); Warn up to Error(8); Error from 8 *)
+Definition spec_level (l : Z) : Z :=
+  if l <? 0 then -1 else if l <? 4 then 0 else if l <? 8 then 1 else 2.
+
+(* what one Handle must show *)
+Definition sout := (bool * option (Z * bytes * bytes * otree))%type.
+Definition spec_out (en : Z -> bool) (name : bytes) (ops : list op) (l : Z) (m : bytes) (rec : list attr) : sout :=
+  let zl := spec_level l in
+  (en zl, if en zl then Some (zl, m, name, spec_sem ops rec) else None).
+
+(* the derivation sequence of every handler of a program, then the expected outputs *)
+Fixpoint spec_run (en : Z -> bool) (name : bytes) (paths : list (list op)) (p : list cmd) : list sout :=
+  match p with
+  | [] => []
+  | CGroup par g :: r => spec_run en name (paths ++ [nth par paths [] ++ [OGroup g]]) r
+  | CAttrs par a :: r => spec_run en name (paths ++ [nth par paths [] ++ [OAttrs a]]) r
+  | CHandle i l m rec :: r => spec_out en name (nth i paths []) l m rec :: spec_run en name paths r
+  end.
+
+(* projection of the model's output onto the observable *)
+Definition observe (o : out) : sout :=
+  (fst o, match snd o with
+          | Some e => Some (e_level e, e_msg e, e_name e, denote (e_fields e))
+          | None => None
+          end).
+
+(* the linear program of one handler: derive op after op, then Handle *)
+Fixpoint chain_from (i : nat) (ops : list op) : list cmd :=
+  match ops with
+  | [] => []
+  | OGroup g :: r => CGroup i g :: chain_from (S i) r
+  | OAttrs a :: r => CAttrs i a :: chain_from (S i) r
+  end.
+Definition chain (ops : list op) (l : Z) (m : bytes) (rec : list attr) : list cmd :=
+  chain_from 0 ops ++ [CHandle (length ops) l m rec].
+
+(* (path, level, msg, record) of every Handle of a program *)
+Fixpoint handled_paths (paths : list (list op)) (p : list cmd) : list (list op * Z * bytes * list attr) :=
+  match p with
+  | [] => []
+  | CGroup par g :: r => handled_paths (paths ++ [nth par paths [] ++ [OGroup g]]) r
+  | CAttrs par a :: r => handled_paths (paths ++ [nth par paths [] ++ [OAttrs a]]) r
+  | CHandle i l m rec :: r => (nth i paths [], l, m, rec) :: handled_paths paths r
+  end.
+
+(* ------------------------------------------------------------------ *)
+(* Wire                                                                *)
+(* ------------------------------------------------------------------ *)
+(* case   = (mask #name (cmd ...))
+   cmd    = (0 parent #group) | (1 parent (attr ...)) | (2 handler level #msg (attr ...))
+   attr   = (#key value)
+   value  = (0 kind #txt) | (1 isnil tree) | (2 (attr ...)) | (3 value)
+   tree   = #leaftext | ((#key tree) ...)
+   mask   : bit (l+1) set <-> the core enables zap level l  (l in -1..2)
+   observation = (out ...) one per Handle, out = (enabled 1 zaplevel #msg #logger tree) | (enabled 0) *)
+Fixpoint dec_tree (s : sx) : tree :=
+  match s with
+  | SB b => Leaf b
+  | SZ _ => Leaf []
+  | SL l => Node ((fix go (l : list sx) : otree :=
+                     match l with
+                     | [] => []
+                     | SL (SB k :: t :: _) :: r => (k, dec_tree t) :: go r
+                     | _ :: r => go r
+                     end) l)
+  end.
+
+Definition dec_kind (z : Z) : kind :=
+  match z with
+  | 0 => KBool | 1 => KDuration | 2 => KFloat64 | 3 => KInt64 | 4 => KString | 5 => KTime | _ => KUint64
+  end.
+
+Fixpoint dec_value (s : sx) : value :=
+  match s with
+  | SL (SZ 0 :: SZ kd :: SB txt :: _) => VScalar (dec_kind kd) txt
+  | SL (SZ 1 :: SZ b :: t :: _) => VAny (negb (Z.eqb b 0)) (dec_tree t)
+  | SL (SZ 2 :: SL l :: _) =>
+      VGroup ((fix go (l : list sx) : list (bytes * value) :=
+                 match l with
+                 | [] => []
+                 | SL (SB k :: v :: _) :: r => (k, dec_value v) :: go r
+                 | _ :: r => go r
+                 end) l)
+  | SL (SZ 3 :: v :: _) => VLogValuer (dec_value v)
+  | _ => VAny true (Leaf [])
+  end.
+
+Definition dec_attr (s : sx) : attr := (sx_b (sx_nth s 0), dec_value (sx_nth s 1)).
+Definition dec_attrs (s : sx) : list attr := map dec_attr (sx_l s).
+
+Definition dec_cmd (s : sx) : cmd :=
+  match sx_z (sx_nth s 0) with
+  | 0 => CGroup (sx_n (sx_nth s 1)) (sx_b (sx_nth s 2))
+  | 1 => CAttrs (sx_n (sx_nth s 1)) (dec_attrs (sx_nth s 2))
+  | _ => CHandle (sx_n (sx_nth s 1)) (sx_z (sx_nth s 2)) (sx_b (sx_nth s 3)) (dec_attrs (sx_nth s 4))
+  end.
+
+Definition en_of_mask (m : Z) (l : Z) : bool := Z.testbit m (l + 1).
+
+Definition dec_case (i : sx) : Z * bytes * list cmd :=
+  (sx_z (sx_nth i 0), sx_b (sx_nth i 1), map dec_cmd (sx_l (sx_nth i 2))).
+
+Fixpoint enc_tree (t : tree) : sx :=
+  match t with
+  | Leaf b => SB b
+  | Node kvs => SL ((fix go (l : otree) : list sx :=
+                       match l with [] => [] | (k, t') :: r => SL [SB k; enc_tree t'] :: go r end) kvs)
+  end.
+
+Definition enc_sout (o : sout) : sx :=
+  match snd o with
+  | Some (zl, m, n, t) => SL [of_bool (fst o); SZ 1; SZ zl; SB m; SB n; enc_tree (Node t)]
+  | None => SL [of_bool (fst o); SZ 0]
+  end.
+
+Definition model (i : sx) : sx :=
+  let '(mask, name, p) := dec_case i in
+  SL (map (fun o => enc_sout (observe o)) (run_fixed (en_of_mask mask) name p)).
+
+(* the oracle: independent of the handler model (no fields, no pending groups, no heap) *)
+Definition spec (i o : sx) : bool :=
+  let '(mask, name, p) := dec_case i in
+  sx_eqb o (SL (map enc_sout (spec_run (en_of_mask mask) name [[]] p))).
+
+(* the same wire functions for the code before the fix (used by the _refuted lemmas) *)
+Definition model_orig (i : sx) : sx :=
+  let '(mask, name, p) := dec_case i in
+  SL (map (fun o => enc_sout (observe o)) (run_orig (en_of_mask mask) name p)).
